@@ -44,7 +44,9 @@ pub enum Kind {
 
 #[derive(Clone, Debug, PartialEq)]
 pub enum Op {
-    /// extended squitter: df18 = None -> DF17, Some(cf) -> DF18 with that control field
+    /// extended squitter: df18 = None -> DF17, Some(cf) -> DF18 with that control field.
+    /// ac & 0x7f is the aircraft; ac & 0x80: one bit of the parity field arrives flipped (the frame
+    /// still decodes, its checksum remainder is not zero)
     Squitter { ac: u8, df18: Option<u8>, kind: Kind },
     /// a non-squitter format carrying the same address (AP overlay, or AA for DF11/24+)
     OtherFormat { ac: u8, df: u8, fill: u64 },
@@ -118,7 +120,7 @@ fn kind_s() -> impl Strategy<Value = Kind> {
 }
 
 fn op_s(nac: u8, with_time: bool) -> BoxedStrategy<Op> {
-    let sq = (0..nac, prop_oneof![3 => Just(None), 1 => (0u8..8).prop_map(Some)], kind_s()).prop_map(|(ac, df18, kind)| Op::Squitter { ac, df18, kind });
+    let sq = (0..nac, prop_oneof![15 => Just(0u8), 1 => Just(0x80u8)], prop_oneof![3 => Just(None), 1 => (0u8..8).prop_map(Some)], kind_s()).prop_map(|(ac, damaged, df18, kind)| Op::Squitter { ac: ac | damaged, df18, kind });
     let other = (0..nac, prop_oneof![Just(0u8), Just(4), Just(5), Just(11), Just(16), Just(19), Just(20), Just(21), 24u8..32], any::<u64>()).prop_map(|(ac, df, fill)| Op::OtherFormat { ac, df, fill });
     if with_time {
         prop_oneof![
@@ -201,7 +203,7 @@ pub struct Built {
 pub fn build(world: &mut World, op: &Op) -> Option<Built> {
     match op {
         Op::Squitter { ac, df18, kind } => {
-            let a = *ac as usize % world.truth.len();
+            let a = (*ac & 0x7f) as usize % world.truth.len();
             let addr = ADDR[a];
             let mut me = [0u8; 7];
             let mut b = Built { bytes: vec![], addr, squitter: true, ident_raw: None, velocity: None, position: None };
@@ -294,6 +296,10 @@ pub fn build(world: &mut World, op: &Op) -> Option<Built> {
                 None => squitter(17, 5, addr, &me),
                 Some(cf) => squitter(18, *cf, addr, &me),
             };
+            if *ac & 0x80 != 0 {
+                let n = b.bytes.len();
+                b.bytes[n - 1 - (me[1] as usize % 3)] ^= 1 << (me[2] % 8);
+            }
             Some(b)
         }
         Op::OtherFormat { ac, df, fill } => {
@@ -450,16 +456,16 @@ pub fn run_history(s: &Scenario, only: Option<u8>, trace: bool) -> RunOut {
                 // frames are always built so that the world evolves identically under restriction
                 let Some(b) = build(&mut world, op) else { continue };
                 if let Some(o) = only {
-                    if *ac as usize % world.truth.len() != o as usize % world.truth.len() {
+                    if (*ac & 0x7f) as usize % world.truth.len() != o as usize % world.truth.len() {
                         continue;
                     }
                 }
                 if let Some(l) = last_ac {
-                    if l != *ac {
+                    if l != *ac & 0x7f {
                         out.interleaved = true;
                     }
                 }
-                last_ac = Some(*ac);
+                last_ac = Some(*ac & 0x7f);
                 let frame = match catch_unwind(AssertUnwindSafe(|| Frame::from_bytes(&b.bytes))) {
                     Ok(Ok(f)) => f,
                     _ => continue, // decoding is decided elsewhere
@@ -1624,6 +1630,12 @@ pub fn run(ctx: &Ctx, pid: &'static str) -> ! {
                     }
                     if out.saw_df18 {
                         st.class("with DF18");
+                    }
+                    if s.ops.iter().any(|o| matches!(o, Op::Squitter { ac, .. } if ac & 0x80 != 0)) {
+                        st.class("with a squitter whose checksum fails");
+                    }
+                    if matches!(s.ops.iter().find(|o| matches!(o, Op::Squitter { .. })), Some(Op::Squitter { ac, .. }) if ac & 0x80 != 0) {
+                        st.class("first squitter of the history fails its checksum");
                     }
                     if st.samples.len() < 3 && nontrivial && s.ops.len() < 14 {
                         st.samples.push(json!({"ops": s.ops.iter().map(op_json).collect::<Vec<_>>(), "rx": RX[s.rx as usize % RX.len()], "range": RANGES[s.range as usize % RANGES.len()]}));
